@@ -123,3 +123,38 @@ func Snapshot(n *Node, ips []netip.Addr) string {
 	b.WriteString(strings.Join(lines, "\n"))
 	return b.String()
 }
+
+// SnapshotMap is Snapshot split into named sections so that a harness can say
+// which parts changed.
+func SnapshotMap(n *Node, ips []netip.Addr) map[string]string {
+	out := map[string]string{"table": TableKey(n)}
+	for _, ip := range ips {
+		out["session/"+ip.String()] = SessionKey(n, ip)
+		out["stored/"+ip.String()] = StoredKey(n, ip)
+	}
+	conns := n.Router().ExportConnections(1000 * time.Hour)
+	lines := make([]string, 0, len(conns))
+	for _, c := range conns {
+		lines = append(lines, fmt.Sprintf("%s %s %d %d %d in=%v %s", c.LocalIP, c.RemoteIP, c.Protocol, c.LocalPort, c.RemotePort, c.Inbound, c.StatusName))
+	}
+	sort.Strings(lines)
+	out["conns"] = strings.Join(lines, "\n")
+	return out
+}
+
+// DiffKeys returns the sorted section names whose content differs.
+func DiffKeys(a, b map[string]string) []string {
+	var out []string
+	for k, v := range a {
+		if b[k] != v {
+			out = append(out, k)
+		}
+	}
+	for k := range b {
+		if _, ok := a[k]; !ok {
+			out = append(out, k)
+		}
+	}
+	sort.Strings(out)
+	return out
+}
